@@ -130,7 +130,7 @@ Proof.
     + right. exists FP_group, e. pose proof (NN_group_lines ll) as H. rewrite G in H.
       split; [|intros q X; apply (H q); rewrite X; reflexivity].
       unfold wrap. destruct e; try reflexivity. exfalso. apply (H q). reflexivity.
-  - right. exists FP_label, e. unfold label_lines in L. pose proof (NN_label_go (splitlines (normalize_docstring s)) (mkL TEXT O None)) as H.
+  - right. exists FP_label, e. unfold label_lines in L. pose proof (NN_label_go (srclines (normalize_docstring s)) (mkL TEXT O None)) as H.
     rewrite L in H. split; [|intros q X; apply (H q); rewrite X; reflexivity].
     unfold wrap. destruct e; try reflexivity. exfalso. apply (H q). reflexivity.
 Qed.
